@@ -655,6 +655,10 @@ func ruleCP1(c *Ctx) *rule {
 		if found {
 			r.ok(key, k.pos, k.desc+" is guarded by H == G of the iterated task")
 		} else {
+			if dyn := delegatedDecision(k.guards); dyn != "" {
+				r.undecided(key, k.pos, k.desc+" is decided by "+dyn+", a function value: the checker does not follow which function it is")
+				continue
+			}
 			r.bad(key, k.pos, k.desc+" is reachable without the necessary guard 'current digest == cached digest' ("+strings.Join(why, "; ")+")", describeGuards(c, k.guards)...)
 		}
 	}
@@ -963,6 +967,22 @@ func assumeKey(m map[string]bool) string {
 
 // condKey gives a canonical key for conditions whose repeated evaluation along one path must agree:
 // boolean parameters and ==/!= comparisons over the same pair of SSA values.
+// delegatedDecision: one of the guards is the boolean result of calling a function value (a strategy / policy function picked
+// at run time); returns a description of it, or "".
+func delegatedDecision(gs []guard) string {
+	for _, g := range gs {
+		call, ok := g.cond.(*ssa.Call)
+		if !ok || call.Call.IsInvoke() || call.Call.StaticCallee() != nil {
+			continue
+		}
+		if _, isBuiltin := call.Call.Value.(*ssa.Builtin); isBuiltin {
+			continue
+		}
+		return condText(g.cond)
+	}
+	return ""
+}
+
 func condKey(cond ssa.Value, pol bool) (string, bool) {
 	switch x := cond.(type) {
 	case *ssa.Parameter:
@@ -1673,6 +1693,8 @@ func ruleCP1f(c *Ctx) *rule {
 		}
 		if ok, why := rl.alwaysRunIdiom(k); ok {
 			r.ok(key, k.pos, why)
+		} else if dyn := delegatedDecision(k.guards); dyn != "" {
+			r.undecided(key, k.pos, "whether the task is skipped is decided by "+dyn+", a function value: the checker does not follow which function it is")
 		} else {
 			r.bad(key, k.pos, "a task can be reported skipped while force is set: "+why, describeGuards(c, k.guards)...)
 		}
